@@ -295,7 +295,15 @@ def run_steps(ctx, case, rec):
     if odd:
         rec.count("step_cases_with_nan_or_infinite_fitness")
 
-    prob = MultiObjectiveProblem([rng.random() < 0.5 for _ in range(3)], f3) if case["multi"] else SingleObjectiveProblem(f1, minimize=rng.random() < 0.5)
+    buffer = [0.0, 0.0, 0.0]
+
+    def f3_buffer(p):  # fills and returns ONE preallocated list (an allocation-saving habit): what it returned for a program
+        buffer[:] = f3(p)  # is what the list held at that moment, not what it holds after the next call
+        return buffer
+
+    if case["multi"] and case["seed"] % 3 == 0:
+        rec.count("step_cases_whose_fitness_function_reuses_its_result_list")
+    prob = MultiObjectiveProblem([rng.random() < 0.5 for _ in range(3)], f3_buffer if case["seed"] % 3 == 0 else f3) if case["multi"] else SingleObjectiveProblem(f1, minimize=rng.random() < 0.5)
     ev = SequentialEvaluator()
     pop = []
     for _ in range(case["pop"] * 3):
